@@ -276,6 +276,11 @@ Example command_order_prune_instance : exists frags,
   unindexed_unlisted ex_s0 (unindexed_frag (order_prune false true) frags) = true /\
   needed_kept ex_s0 (concat frags) = true /\ removed_packs_unlisted ex_s0 (concat frags) = true.
 Proof. eexists. split; [vm_compute; reflexivity|]. repeat split; vm_compute; reflexivity. Qed.
+Example command_order_repair_index_instance : exists frags,
+  segment order_repair_index ex_index_written_first = Some frags /\ freshb ex_s0 (concat frags) = true /\
+  unindexed_unlisted ex_s0 (unindexed_frag order_repair_index frags) = true /\
+  needed_kept ex_s0 (concat frags) = true /\ removed_packs_unlisted ex_s0 (concat frags) = true.
+Proof. eexists. split; [vm_compute; reflexivity|]. repeat split; vm_compute; reflexivity. Qed.
 (* the pre-fix order of repair snapshots is NOT a log along the regenerated order *)
 Example snapshot_first_does_not_conform : conformsb order_repair_snapshots ex_snapshot_first = false.
 Proof. vm_compute. reflexivity. Qed.
